@@ -59,6 +59,26 @@ def match_finding(v, findings):
     return None
 
 
+def cleanup_stale(max_age_s=3 * 3600):
+    """sandboxes of runs that were killed from outside (wall limit) stay behind; remove the old ones"""
+    import shutil
+    from . import kernel as K_
+    root = K_.scratch_root()
+    now = time.time()
+    try:
+        names = os.listdir(root)
+    except OSError:
+        return
+    for n in names:
+        if n.startswith('dsim-'):
+            p = os.path.join(root, n)
+            try:
+                if now - os.stat(p).st_mtime > max_age_s:
+                    shutil.rmtree(p, ignore_errors=True)
+            except OSError:
+                pass
+
+
 class HarnessFailure(Exception):
     pass
 
@@ -75,6 +95,7 @@ class Batch:
         self.harness_errors = []
 
     def open(self, env=None):
+        cleanup_stale()
         self.farm = runner.Farm(jobs(), self.engine.template_init, self.engine.run_one, env=env)
         return self
 
